@@ -148,3 +148,210 @@ def c08_stage(prop, tier, seed, replay):
     # keep the report bounded
     rep["violations"] = rep["violations"][:200]
     return rep
+
+
+# ------------------------------------------------------------------------------------------------
+# C20
+
+CLI = os.path.join(WORK, "target-cli", "debug", "conjure-rust")
+REPO_IRS = ["/repo/conjure-test/test-ir.json", "/repo/conjure-error/error-types.conjure.json", "/repo/conjure-codegen/example-types-ir.json",
+            "/repo/conjure-codegen/conjure-api-4.32.0.conjure.json"]
+
+
+def build_cli():
+    env = dict(ENV)
+    env["CARGO_TARGET_DIR"] = os.path.join(WORK, "target-cli")
+    t = time.time()
+    r = subprocess.run(["cargo", "build", "--offline", "--quiet", "-p", "conjure-rust"], cwd="/repo", env=env, stdout=subprocess.PIPE, stderr=subprocess.STDOUT, text=True)
+    if r.returncode != 0:
+        raise Inconclusive("conjure-rust CLI does not build: " + r.stdout[-1500:])
+    log("[build] conjure-rust CLI ok in %.1fs" % (time.time() - t))
+
+
+def tree_digest(d):
+    out = {}
+    for root, dirs, files in os.walk(d):
+        dirs.sort()
+        for fn in sorted(files):
+            p = os.path.join(root, fn)
+            with open(p, "rb") as f:
+                out[os.path.relpath(p, d)] = hashlib.sha256(f.read()).hexdigest()
+    return out
+
+
+def c20_configs(r):
+    cfg = {"exhaustive": r.random() < 0.4, "serialize_empty": r.random() < 0.4,
+           "strip": r.choice([None, "com.verif", "com.verif.lab", "com"]), "crate": None}
+    if r.random() < 0.35:
+        cfg["crate"] = (r.choice(["my-product", "lab_api", "x"]), r.choice(["1.2.3", "0.0.1-rc1"]), r.choice([None, "9.9.9"]))
+    return cfg
+
+
+def lib_flags(cfg):
+    f = []
+    if cfg["exhaustive"]:
+        f.append("--exhaustive")
+    if cfg["serialize_empty"]:
+        f.append("--serialize-empty")
+    if cfg["strip"]:
+        f += ["--strip-prefix", cfg["strip"]]
+    if cfg["crate"]:
+        name, pv, cv = cfg["crate"]
+        f += ["--crate", name, cv or pv, "--version", pv]
+    return f
+
+
+def cli_flags(cfg, r):
+    f = []
+    if cfg["exhaustive"]:
+        f.append(r.choice(["--exhaustive", "--exhaustive=true"]))
+    elif r.random() < 0.3:
+        f.append("--exhaustive=false")
+    if cfg["serialize_empty"]:
+        f.append(r.choice(["--serializeEmptyCollections", "--serializeEmptyCollections=true"]))
+    if cfg["strip"]:
+        f += ["--stripPrefix", cfg["strip"]]
+    if cfg["crate"]:
+        name, pv, cv = cfg["crate"]
+        f += ["--productName", name, "--productVersion", pv]
+        if cv:
+            f += ["--crateVersion", cv]
+    return f
+
+
+WRITE_CALLS = ("mkdir", "mkdirat", "rename", "renameat", "renameat2", "unlink", "unlinkat", "rmdir", "symlink", "symlinkat", "link", "linkat", "creat", "truncate", "chmod", "fchmodat", "mknod", "mknodat")
+
+
+def strace_escapes(trace_text, cwd, outdir):
+    """Paths created / written / renamed / removed outside `outdir` according to an strace -f log."""
+    import re
+    bad = []
+    for line in trace_text.splitlines():
+        m = re.match(r"^(?:\[pid\s+\d+\]\s+|\d+\s+)?(\w+)\((.*)$", line)
+        if not m:
+            continue
+        call, rest = m.group(1), m.group(2)
+        if " = -1 " in line:
+            continue
+        paths = re.findall(r'"((?:[^"\\]|\\.)*)"', rest)
+        writes = False
+        if call in ("open", "openat"):
+            writes = any(fl in rest for fl in ("O_WRONLY", "O_RDWR", "O_CREAT", "O_TRUNC", "O_APPEND"))
+        elif call in WRITE_CALLS:
+            writes = True
+        if not writes:
+            continue
+        for p in paths:
+            ap = os.path.normpath(p if os.path.isabs(p) else os.path.join(cwd, p))
+            if ap == "/dev/null" or ap.startswith("/dev/tty") or ap.startswith("/proc/self/"):
+                continue
+            if not (ap == outdir or ap.startswith(outdir + os.sep)):
+                bad.append((call, ap))
+    return bad
+
+
+def c20_shard(args):
+    shard, cases = args
+    import random
+    from gen import LabGen, Profile
+    rep = empty_report("C20")
+    base = scratch("c20-%d" % shard)
+    distinct = set()
+    for idx, (case_seed, ir_path) in enumerate(cases):
+        r = random.Random(case_seed)
+        if ir_path is None:
+            g = LabGen(case_seed, Profile(n_types=r.choice([3, 8, 20, 40]), services=r.choice([0, 1, 3]), errors=r.choice([0, 2])))
+            ir_path = os.path.join(base, "ir-%d.json" % idx)
+            with open(ir_path, "w") as f:
+                json.dump(g.ir(), f)
+            origin = "random"
+        else:
+            origin = os.path.basename(ir_path)
+        cfg = c20_configs(r)
+        digests, errors = [], []
+        for run in range(4):
+            cwd = os.path.join(base, "cwd-%d-%d-%s" % (idx, run, "x" * run))
+            os.makedirs(cwd, exist_ok=True)
+            out = os.path.join(base, r.choice(["out", "o", "deeply/nested/out dir"]) + "-%d-%d" % (idx, run))
+            os.makedirs(os.path.dirname(out), exist_ok=True)   # only the output directory itself is the generator's to create
+            env = dict(ENV)
+            env.update({"TMPDIR": cwd, "HOME": cwd, "LANG": r.choice(["C", "en_US.UTF-8", "tr_TR.UTF-8"]), "TZ": r.choice(["UTC", "Asia/Tokyo", "America/New_York"]),
+                        "RUST_BACKTRACE": r.choice(["0", "1"])})
+            do_strace = run == 3 and (idx % 5 == 0)
+            if run < 2:
+                cmd = [GENRUN, "gen", ir_path, out] + lib_flags(cfg)
+            else:
+                cmd = [CLI, "generate"] + cli_flags(cfg, r) + [ir_path, out]
+            trace = os.path.join(cwd, "trace.txt")
+            if do_strace:
+                cmd = ["strace", "-f", "-qq", "-e", "trace=%file", "-o", trace] + cmd
+            pr = subprocess.run(cmd, cwd=cwd, env=env, stdout=subprocess.PIPE, stderr=subprocess.PIPE, text=True)
+            ok = pr.returncode == 0 and (run >= 2 or '"ok"' in pr.stdout)
+            rep["evaluations"] += 1
+            if not ok:
+                errors.append((run, (pr.stdout + pr.stderr)[-300:]))
+                digests.append(None)
+                continue
+            digests.append(tree_digest(out))
+            if do_strace:
+                with open(trace) as f:
+                    esc = strace_escapes(f.read(), cwd, os.path.normpath(out))
+                rep["matrix"]["containment/strace-runs"] = rep["matrix"].get("containment/strace-runs", 0) + 1
+                if esc:
+                    rep["violations"].append(violation("determinism", case_seed, "writes-outside-output-directory", {"origin": origin, "paths": esc[:5], "config": cfg}))
+            # nothing but the output directory may appear in the scratch cwd either
+            extra = [e for e in os.listdir(cwd) if e != "trace.txt"]
+            if extra:
+                rep["violations"].append(violation("determinism", case_seed, "files-created-in-cwd-or-tmp", {"origin": origin, "entries": extra[:5]}))
+            shutil.rmtree(out, ignore_errors=True)
+        sig = "%s|ex=%s|se=%s|strip=%s|crate=%s" % (origin if origin != "random" else "random", cfg["exhaustive"], cfg["serialize_empty"], cfg["strip"], bool(cfg["crate"]))
+        distinct.add(fnv(sig))
+        rep["matrix"]["config/" + sig.split("|", 1)[1]] = rep["matrix"].get("config/" + sig.split("|", 1)[1], 0) + 1
+        if errors:
+            rep["violations"].append(violation("determinism", case_seed, "generation-failed", {"origin": origin, "config": cfg, "errors": errors[:2]}))
+            continue
+        a = digests[0]
+        names = ["library#1", "library#2", "cli#1", "cli#2"]
+        for k in range(1, 4):
+            b = digests[k]
+            if a != b:
+                diff = sorted(set(a) ^ set(b))[:4] + [f for f in a if f in b and a[f] != b[f]][:4]
+                kind = "library-vs-cli" if k >= 2 and digests[1] == a else "run-to-run"
+                rep["violations"].append(violation("determinism", case_seed, "trees-differ:" + kind, {"origin": origin, "config": cfg, "between": [names[0], names[k]], "files": diff}))
+                break
+        if len(rep["samples"]) < 2:
+            rep["samples"].append({"sub": "determinism", "case_seed": case_seed, "origin": origin, "config": cfg, "files": len(a), "digest_of_first_file": sorted(a.items())[0] if a else None})
+    rep["distinct"] = sorted(distinct)
+    shutil.rmtree(base, ignore_errors=True)
+    return rep
+
+
+def c20_stage(prop, tier, seed, replay):
+    build(["genrun"])
+    build_cli()
+    import random
+    rr = random.Random(seed * 104729 + 20)
+    if replay:
+        with open(replay) as f:
+            doc = json.load(f)
+        cases = [(doc["case_seed"], doc["detail"].get("origin_path"))]
+    else:
+        n = 160 if tier == "quick" else 6000
+        cases = [(rr.getrandbits(48), None) for _ in range(n)]
+        # the IR files shipped in the repository, under several configurations each
+        for p in REPO_IRS:
+            if os.path.exists(p):
+                for k in range(3 if tier == "quick" else 12):
+                    cases.append((rr.getrandbits(48), p))
+    shards = [(i, cases[i::NPROC]) for i in range(NPROC) if cases[i::NPROC]]
+    rep = empty_report(prop)
+    with ProcessPoolExecutor(max_workers=NPROC) as ex:
+        for part in ex.map(c20_shard, shards):
+            merge(rep, part)
+    if not replay:
+        rep["floors"]["configurations"] = [8, len([k for k in rep["matrix"] if k.startswith("config/")])]
+        rep["floors"]["strace-runs"] = [10, rep["matrix"].get("containment/strace-runs", 0)]
+    rep["notes"].append("each definition x configuration is generated 4 times in separate processes (2x library entry via genrun, 2x conjure-rust CLI) into fresh "
+                        "directories with different cwd/TMPDIR/HOME/LANG/TZ; file lists and SHA-256 of every file compared; every 5th CLI run under strace -f -e trace=%file")
+    rep["violations"] = rep["violations"][:100]
+    return rep
